@@ -17,7 +17,7 @@ func init() {
 			"R3 kind discipline: pos evaluates to the start of a token or a child's pos; end to the end of a token, a child's end, or start + n where n equals the byte length of that token as established by the guards on the path (expect(\"X\"), expectKeywordLike(\"X\"), a switch on the kind evaluated while the token was current), constants and len(field) included, (B ? a : b) per constant of B. " +
 			"R5 sibling order: the declaration order of the node-typed fields equals the order of their parse events in every production (CreateTable exempt as in the property). " +
 			"Does not decide: 0 <= Pos and End <= len(input) (numeric, follows from token positions being in range), Bad* ranges (C10).",
-		Rules: []ruleFn{ruleC05Anchors, ruleC05R5, ruleC06Order},
+		Rules: []ruleFn{ruleC05Anchors, ruleC05R5, ruleC06Order, ruleC06R3},
 	})
 	register(&propDef{
 		ID: "C06",
@@ -25,7 +25,7 @@ func init() {
 			"R1 first token: the value chosen by pos at a site is produced by the first token-consuming event of the production for this node (no other field's event precedes it, apart from fields listed earlier in the pos chain); " +
 			"R2 last token / complete fallback chains: (a) the alternatives of an end chain are listed in the reverse order of their parse events, (b) every field whose parse event lies after the event of the last (mandatory) alternative appears in the chain. " +
 			"Does not decide: clauses (a)/(b) of the property as stated (re-parsing substrings is a run-time experiment); the rules are the code-shape conditions without which they fail.",
-		Rules: []ruleFn{ruleC05Anchors, ruleC06Order},
+		Rules: []ruleFn{ruleC05Anchors, ruleC06Order, ruleC06R3},
 	})
 }
 
@@ -850,4 +850,22 @@ func (w *World) fieldMayBeAbsent(si *siteInfo, field string) bool {
 		return a.mayEmpty || !a.mayFull
 	}
 	return a.mayNil
+}
+
+// ruleC05R1Only: the anchor-presence part of ruleC05Anchors (C05/R1) for properties that need the positions to be
+// recorded at all, but not their exact extent (known findings of C05/R3 belong to C05/C06 only).
+func ruleC05R1Only(w *World, r *Report) {
+	tmp := &Report{Prop: r.Prop, Tier: r.Tier}
+	ruleC05Anchors(w, tmp)
+	for _, ri := range tmp.Rules {
+		if ri.ID == "C05/R1" {
+			r.rule(ri.ID, ri.Text, ri.Floor)
+		}
+	}
+	for _, o := range tmp.Obs {
+		if o.Rule == "C05/R1" {
+			r.add(o)
+		}
+	}
+	r.Errors = append(r.Errors, tmp.Errors...)
 }
